@@ -280,6 +280,34 @@ Theorem C03_single_insertion_is_read_by_exactly_the_listed_operators :
 Proof. exact single_insertion_readers. Qed.
 Print Assumptions C03_single_insertion_is_read_by_exactly_the_listed_operators.
 
+(* ... and the same when the insertion comes after in-place quantizations of the
+   same tensor: [QUANTIZE_TENSOR p; ADD_DEQUANTIZE p for the graph output] — every
+   OUTPUT of a full-integer model —, [QUANTIZE_TENSOR p1; ADD_QUANTIZE p2] — a
+   REQUANTIZATION between two quantized operators —, [QUANTIZE_TENSOR p;
+   ADD_DEQUANTIZE p for the float readers] — a quantized producer with float
+   consumers.  With the in-place theorems above this covers every instruction
+   shape the generator emits for the shipped full-integer recipes except
+   several insertions on one tensor. *)
+Theorem C03_insertion_after_in_place_quantization_is_read_by_exactly_the_listed_operators :
+  forall m0 pre ti0 post m' k g0 qs i0,
+    Forall wf_sg (m_subgraphs m0) -> uids_ok m0 ->
+    (forall ti i, In ti (pre ++ ti0 :: post) -> In i (ti_insts ti) -> sane m0 (ti_sg ti) i) ->
+    ids_ok (pre ++ ti0 :: post) ->
+    nth_opt (m_subgraphs m0) k = Some g0 ->
+    ti_sg ti0 = Z.of_nat k -> ti_insts ti0 = qs ++ [i0] ->
+    Forall (fun q => i_trans q = Tr_QUANTIZE_TENSOR) qs ->
+    (i_trans i0 = Tr_ADD_QUANTIZE \/ i_trans i0 = Tr_ADD_DEQUANTIZE) ->
+    Forall (fun c => -1 <= c) (i_consumers i0) ->
+    never_names k (i_tensor i0) pre ->
+    (forall t0, tensor_at g0 (i_tensor i0) = Some t0 -> 0 <= t_buf t0) ->
+    transform_graph m0 (pre ++ ti0 :: post) = Ok m' ->
+    exists x' g' tn, nth_opt (m_subgraphs m') k = Some g' /\ ntens g0 <= x' /\
+                  readers_profile x' g' = moved_profile (i_tensor i0) (i_consumers i0) g0 /\
+                  tensor_at g' x' = Some tn /\
+                  new_tensor_type (qtrans_eqb (i_trans i0) Tr_ADD_QUANTIZE) (i_params i0) tn.
+Proof. exact insertion_after_inplace_readers. Qed.
+Print Assumptions C03_insertion_after_in_place_quantization_is_read_by_exactly_the_listed_operators.
+
 (* non-vacuity: QUANTIZE inserted on the graph input of x --op--> y for consumer
    0: the new tensor 2 is read by the operator with uid 0 at slot 0 *)
 Example C03_inserted_readers_nonvacuous :
